@@ -274,8 +274,18 @@ func AnyV() VM { return func(ssa.Value) bool { return true } }
 
 // FieldLoad matches a read of the field named by any of the dotted paths.
 func FieldLoad(paths ...string) VM {
+	conf := len(paths) > 0
+	for _, p := range paths {
+		if !strings.HasPrefix(p, "Config.") {
+			conf = false
+		}
+	}
 	return func(v ssa.Value) bool {
 		v = strip(v)
+		if conf && !isFieldRead(v) {
+			// a validated Config is never written again: `x := conf.F; … x …` reads the same value
+			v = hoistedValue(v)
+		}
 		if !isFieldRead(v) {
 			return false
 		}
@@ -287,6 +297,75 @@ func FieldLoad(paths ...string) VM {
 		}
 		return false
 	}
+}
+
+// hoistedValue: for a load of a local variable (also one captured by a closure, immediately invoked or
+// not) that is written exactly once in the whole function nest, the value written; v otherwise.
+func hoistedValue(v ssa.Value) ssa.Value {
+	v = strip(v)
+	u, ok := v.(*ssa.UnOp)
+	if !ok || u.Op != token.MUL {
+		return v
+	}
+	cell := u.X
+	for d := 0; d < 8; d++ {
+		fv, ok := cell.(*ssa.FreeVar)
+		if !ok {
+			break
+		}
+		g := fv.Parent()
+		par := g.Parent()
+		if par == nil {
+			return v
+		}
+		var b ssa.Value
+		for _, blk := range par.Blocks {
+			for _, in := range blk.Instrs {
+				if mc, ok := in.(*ssa.MakeClosure); ok && mc.Fn == ssa.Value(g) {
+					for i, f := range g.FreeVars {
+						if f == fv && i < len(mc.Bindings) {
+							b = mc.Bindings[i]
+						}
+					}
+				}
+			}
+		}
+		if b == nil {
+			return v
+		}
+		cell = b
+	}
+	al, ok := cell.(*ssa.Alloc)
+	if !ok {
+		return v
+	}
+	var stored []ssa.Value
+	var scan func(f *ssa.Function, c ssa.Value)
+	scan = func(f *ssa.Function, c ssa.Value) {
+		for _, blk := range f.Blocks {
+			for _, in := range blk.Instrs {
+				switch x := in.(type) {
+				case *ssa.Store:
+					if x.Addr == c {
+						stored = append(stored, x.Val)
+					}
+				case *ssa.MakeClosure:
+					if g, ok := x.Fn.(*ssa.Function); ok {
+						for i, bnd := range x.Bindings {
+							if bnd == c && i < len(g.FreeVars) {
+								scan(g, g.FreeVars[i])
+							}
+						}
+					}
+				}
+			}
+		}
+	}
+	scan(al.Parent(), al)
+	if len(stored) != 1 {
+		return v
+	}
+	return strip(stored[0])
 }
 
 // FieldLoadOf additionally requires the owner's base value to satisfy base.
